@@ -8,6 +8,7 @@
 mod c02;
 mod c03;
 mod c04;
+mod c08;
 mod c09;
 mod c10;
 mod c16;
@@ -27,6 +28,7 @@ fn main() {
         ("search", "c03") => c03::search(&args[3..]),
         ("search", "c16") => c16::search(&args[3..]),
         ("search", "c09") => c09::search(&args[3..]),
+        ("search", "c08") => c08::search(&args[3..]),
         ("search", "c10") => c10::search(&args[3..]),
         ("replay", path) => {
             let text = match std::fs::read_to_string(path) {
@@ -43,6 +45,7 @@ fn main() {
                 "c03-op" => c03::replay(&text),
                 "kani-values" => c16::replay(&text),
                 "c09-literal" => c09::replay(&text),
+                "c08-match" => c08::replay(&text),
                 "c16-circuit" | "c10-conversion" => {
                     println!("{text}");
                     3
